@@ -157,6 +157,13 @@ def run(check):
     if not check.has_failing():
         emptied_variants_part(check)
     if not check.has_failing():
+        check.rule += ("; module-attributes part: the items of random files moved into chains of 1-4 nested inline modules / fn bodies whose "
+                       "modules are named tests / fixtures / internal / wire .. and carry cfg(test), cfg(not(test)), cfg(any / all(..)) with "
+                       "`test`, feature, debug_assertions, target_os (no --target-os then), unix / doc / miri, cfg_attr, allow / deny, doc(hidden), "
+                       "path, macro_use, doc comments, 1-3 per module, on any module of the chain: parse level against the expected-items oracle "
+                       "and the model, generation in-process and through the binary in all six languages - one definition per annotated item")
+        module_attrs_part(check)
+    if not check.has_failing():
         check.rule += ("; own-names part: programs of 4-8 annotated items of every kind next to un-annotated ones, under type_mappings "
                        "tables whose keys are names of the program itself (Rust names of one / several / all annotated items, serde names, "
                        "un-annotated items, near misses, compound spellings, member names), in-process and through the binary with a "
@@ -675,6 +682,254 @@ def emptied_variants_part(check):
             check.violation("%s: struct variants without fields: generate_types differs from the model: %s" % (lang, d),
                             case={"lang": lang, "source": texts[0]}, impl=ra, model=ma, failing_input=False,
                             broken="correspondence L2 generate (theorems TsV.C03.Capstone run_guarantees_*)")
+            return
+
+
+# ----------------------------------------------------------------------------- attributes on the inline modules around the items
+
+def _cfg(*pred):
+    return m_list("cfg", list(pred))
+
+
+_feat = lambda name: m_nv("feature", lit_s(name))
+_not = lambda x: m_list("not", [x])
+# (label, attribute) - what people write on `mod name { .. }`.  typeshare reads the source text without evaluating any of them:
+# an annotated item below such a module is "found anywhere in the scanned files (including nested modules)"
+MODULE_ATTRS = [
+    ("cfg(test)", _cfg(m_path("test"))),
+    ("cfg(not(test))", _cfg(_not(m_path("test")))),
+    ("cfg(any(test, feature))", _cfg(m_list("any", [m_path("test"), _feat("fixtures")]))),
+    ("cfg(any(feature, test))", _cfg(m_list("any", [_feat("testing"), m_path("test")]))),
+    ("cfg(all(test, feature))", _cfg(m_list("all", [m_path("test"), _feat("slow")]))),
+    ("cfg(all(not(test), unix))", _cfg(m_list("all", [_not(m_path("test")), m_path("unix")]))),
+    ("cfg(any(not(test), debug_assertions))", _cfg(m_list("any", [_not(m_path("test")), m_path("debug_assertions")]))),
+    ("cfg(feature)", _cfg(_feat("wire"))),
+    ("cfg(feature = \"test\")", _cfg(_feat("test"))),
+    ("cfg(not(feature))", _cfg(_not(_feat("minimal")))),
+    ("cfg(any(feature, feature))", _cfg(m_list("any", [_feat("a"), _feat("b")]))),
+    ("cfg(debug_assertions)", _cfg(m_path("debug_assertions"))),
+    ("cfg(not(debug_assertions))", _cfg(_not(m_path("debug_assertions")))),
+    ("cfg(target_os)", _cfg(m_nv("target_os", lit_s("linux")))),
+    ("cfg(not(target_os))", _cfg(_not(m_nv("target_os", lit_s("windows"))))),
+    ("cfg(any(target_os, target_os))", _cfg(m_list("any", [m_nv("target_os", lit_s("ios")), m_nv("target_os", lit_s("android"))]))),
+    ("cfg(unix)", _cfg(m_path("unix"))),
+    ("cfg(windows)", _cfg(m_path("windows"))),
+    ("cfg(target_arch)", _cfg(m_nv("target_arch", lit_s("wasm32")))),
+    ("cfg(target_family)", _cfg(m_nv("target_family", lit_s("wasm")))),
+    ("cfg(doc)", _cfg(m_path("doc"))),
+    ("cfg(miri)", _cfg(m_path("miri"))),
+    ("cfg(any())", _cfg(m_list("any", []))),
+    ("cfg(all())", _cfg(m_list("all", []))),
+    ("cfg_attr(test, allow)", m_list("cfg_attr", [m_path("test"), m_list("allow", [m_path("dead_code")])])),
+    ("cfg_attr(feature, path)", m_list("cfg_attr", [_feat("alt"), m_nv("path", lit_s("alt_impl.rs"))])),
+    ("cfg_attr(docsrs, doc(cfg))", m_list("cfg_attr", [m_path("docsrs"), m_list("doc", [m_list("cfg", [_feat("wire")])])])),
+    ("allow(dead_code)", m_list("allow", [m_path("dead_code")])),
+    ("allow(several lints)", m_list("allow", [m_path("unused_imports"), m_path("non_snake_case"), m_path("clippy", "module_inception")])),
+    ("deny(missing_docs)", m_list("deny", [m_path("missing_docs")])),
+    ("doc(hidden)", m_list("doc", [m_path("hidden")])),
+    ("path = \"..\"", m_nv("path", lit_s("platform/unix_impl.rs"))),
+    ("macro_use", m_path("macro_use")),
+    ("rustfmt::skip", m_path("rustfmt", "skip")),
+    ("deprecated", m_path("deprecated")),
+    ("doc comment (line)", doc_attr(" Helpers for the unit tests; see cfg(test).", "line")),
+    ("doc comment (block)", doc_attr(" Wire format, not compiled under test ", "block")),
+    ("doc = \"..\"", doc_attr("internal: do not use", "attr")),
+]
+MODULE_NAMES = ["tests", "test", "fixtures", "internal", "private", "imp", "detail", "generated", "wire", "v1", "bench", "mocks", "unix",
+                "ffi", "models", "api", "__private", "prelude"]
+
+
+def attributed_modules(rng, items, stats):
+    """regroup the flat item list of a file: 1-3 runs of neighbouring items move into a chain of 1-4 nested containers - inline modules
+    (named the way people name them: tests, fixtures, internal, wire, ..) and, now and then, fn bodies -, at least one module of every
+    chain carries 1-3 attributes of MODULE_ATTRS (the other modules of the chain do with probability 0.4), the items of the run sit at
+    any level of the chain (at least one at the bottom).  Returns the new item list; stats collects (label, nesting depth of the
+    attributed module) pairs and whether a target_os predicate was used"""
+    items = list(items)
+    out, i, serial = [], 0, [0]
+    ngroups = rng.randint(1, 3)
+    used = set()
+
+    def mod_name():
+        n = rng.choice(MODULE_NAMES)
+        while n in used:
+            serial[0] += 1
+            n = "%s_%d" % (n.strip("_"), serial[0])
+        used.add(n)
+        return n
+
+    def attrs_for(depth):
+        picked = rng.sample(MODULE_ATTRS, rng.choice([1, 1, 1, 2, 2, 3]))
+        for label, _ in picked:
+            stats.append((label, depth))
+        return [a for _, a in picked]
+
+    while i < len(items):
+        if ngroups == 0 or (rng.random() < 0.3 and len(items) - i > ngroups):
+            out.append(items[i])
+            i += 1
+            continue
+        ngroups -= 1
+        k = rng.randint(1, min(3, len(items) - i))
+        group, i = items[i:i + k], i + k
+        depth = rng.randint(1, 4)
+        forced = rng.randrange(depth)
+        levels = [[] for _ in range(depth)]
+        levels[depth - 1].append(group[0])
+        for it in group[1:]:
+            levels[rng.randrange(depth)].append(it)
+        node = None
+        for d in reversed(range(depth)):
+            content = levels[d] + ([node] if node else [])
+            rng.shuffle(content)
+            if d == forced or rng.random() < 0.75:
+                node = {"kind": "mod", "attrs": attrs_for(d + 1) if (d == forced or rng.random() < 0.4) else [], "ident": mod_name(), "items": content}
+            else:
+                serial[0] += 1
+                node = {"kind": "other", "ident": "helper_%d" % serial[0], "paths": [], "items": content}
+        out.append(node)
+    return out
+
+
+def enclosing_modules(file):
+    """{identifier of an item: [the rendered heads of the containers around it, outermost first]}"""
+    out = {}
+
+    def walk(items, chain):
+        for it in items:
+            if it["kind"] == "mod":
+                head = " ".join(render_attr_any(a).strip() for a in it["attrs"])
+                walk(it["items"], chain + [(head + " " if head else "") + "pub mod %s { .. }" % it["ident"]])
+            elif it["kind"] == "other":
+                walk(it["items"], chain + ["fn %s() { .. }" % it["ident"]])
+            elif it.get("ident"):
+                out.setdefault(it["ident"], chain)
+    walk(file["items"], [])
+    return out
+
+
+def module_attrs_part(check):
+    """attributes on the inline modules that hold annotated items.  The items of a random file (all four kinds, skip markers, item-level
+    cfg attributes, un-annotated neighbours) are moved into chains of 1-4 nested inline modules / fn bodies; the modules are named
+    `tests`, `fixtures`, `internal`, `wire`, .. and carry 1-3 of: cfg(test), cfg(not(test)), cfg(any(..)) / cfg(all(..)) with `test`
+    in any position, cfg(feature = ".."), cfg(debug_assertions), cfg(target_os = "..") (no --target-os on the command line then),
+    cfg(unix / windows / doc / miri / any() / all()), cfg_attr(..), allow(..) / deny(..), doc(hidden), path = "..", macro_use,
+    rustfmt::skip, deprecated, doc comments in the three spellings - on the outermost, a middle or the innermost module of the chain.
+    typeshare reads the source text; it does not evaluate conditional compilation of modules, and the property speaks of every
+    annotated item "found anywhere in the scanned files (including nested modules)".
+    Demanded (a) parse level: the ParsedData of the real parser lists exactly the annotated, non-skipped items and members of the
+    source (`expected` / `oracle`, one entry or one error per annotated item) - and equals the model's; (b) generation in-process,
+    all six languages, on programs of 4-8 generatable items of every kind arranged the same way: one definition per annotated item,
+    none for the un-annotated ones (`own_names_judge`), output equal to the model's; (c) the same through the binary for one
+    (thorough: three) program(s) per language: exit 0 => every annotated item is defined once in the output file"""
+    import l2
+    rng = check.rng
+    n = 8000 if check.thorough else 1500
+    cases = []
+    for i in range(n):
+        g = Gen(rng, p_skip=0.2, p_mod=0.0, p_noise=0.35, p_cfg=0.08, p_unsupported=0.02, p_edge=0.03)
+        f = g.file()
+        stats = []
+        f = {"attrs": f["attrs"], "items": attributed_modules(rng, f["items"], stats)}
+        uses_os = any("target_os" in label for label, _ in stats)
+        tos = [] if uses_os else rng.choice([[], [], [], ["ios"], ["android", "macos"]])
+        m, r, text = l1.requests(f, g, target_os=tos)
+        cases.append(dict(file=f, m=m, r=r, text=text, tos=tos, stats=stats))
+    mans, rans, diffs = l1.compare([(c["m"], c["r"]) for c in cases])
+    failing = []
+    for c, ma, ra in zip(cases, mans, rans):
+        check.saw(("module-attrs", c["text"], ",".join(c["tos"])), nontrivial="#[typeshare" in c["text"])
+        for label, depth in c["stats"]:
+            check.count("module-attr:" + label)
+            check.count("module-attr-at-depth:%d" % depth)
+        if "#[typeshare" not in c["text"]:
+            continue
+        exp = expected(c["file"], c["tos"])
+        check.count("module-attrs-annotated-items-below-modules", sum(1 for _, name, _ in exp if enclosing_modules(c["file"]).get(name)))
+        prob = oracle(exp, ra)
+        if prob:
+            failing.append((len(c["text"]), len(failing), c, ma, ra, exp, prob))
+    if failing:
+        check.count("module-attrs-files-judged-wrong", len(failing))
+        for _, _, c, ma, ra, exp, prob in sorted(failing)[:1]:       # the shortest source that shows it
+            got = {it["id"]["o"] for k in ("structs", "enums", "aliases", "consts") for it in ra["ok"][k]} if ra.get("ok") else set()
+            where = enclosing_modules(c["file"])
+            lost = [(kind, name) for kind, name, _ in exp if name not in got]
+            detail = "; ".join("the %s `%s` inside %s" % (kind, name, " > ".join("`%s`" % h for h in where.get(name, [])) or "the file's top level")
+                               for kind, name in lost[:4])
+            check.violation("annotated items below inline modules that carry attributes are neither parsed nor reported as errors (%s): %s - "
+                            "typeshare shares every annotated item found in the scanned text, whatever attribute the enclosing module has"
+                            % (prob, detail or "see the parsed lists"),
+                            case={"source": c["text"], "target_os": c["tos"], "request": c["r"],
+                                  "replay": "write `source` to proj/src/lib.rs and run: typeshare --lang typescript -o out.ts proj"},
+                            impl=ra, model=ma, failing_input=True)
+            return
+    if diffs:
+        c = cases[diffs[0]]
+        check.violation("modules with attributes: parser::parse differs from the model: %s" % l1.first_diff(mans[diffs[0]], rans[diffs[0]]),
+                        case={"source": c["text"], "target_os": c["tos"], "request": c["r"]}, impl=rans[diffs[0]], model=mans[diffs[0]],
+                        failing_input=False, broken="correspondence L1 parser::parse on inline modules with attributes (theorems TsV.C03.*)")
+        return
+    # (b) generation, in-process
+    progs = []
+    for idx in range((100 if check.thorough else 20) * len(LANGS)):
+        lang = LANGS[idx % len(LANGS)]
+        f, meta = own_names_program(rng)
+        stats = []
+        f = {"attrs": [], "items": attributed_modules(rng, f["items"], stats)}
+        cfg = {"package": "proto" if lang == "go" else "com.example", "type_mappings": {}, "version_header": False}
+        mreq, rreq, texts = l2.requests(lang, cfg, [{"crate": "", "file_name": "out", "path": "src/lib.rs", "file": f}], Gen(rng))
+        progs.append(dict(lang=lang, file=f, meta=meta, stats=stats, mreq=mreq, rreq=rreq, text=texts[0]))
+    rans = [l2.norm(a) for a in runner([p["rreq"] for p in progs])]
+    for p, ra in zip(progs, rans):
+        lang = p["lang"]
+        check.saw(("module-attrs-generate", lang, p["text"]), nontrivial=True)
+        check.count("module-attrs-generate-" + lang)
+        for label, depth in p["stats"]:
+            check.count("module-attr:" + label)
+            check.count("module-attr-at-depth:%d" % depth)
+        if "ok" not in ra:
+            check.count("module-attrs-generate-answer:" + ("panic" if "panic" in ra else "error-reported"))
+            continue            # reported (a const in a language that cannot write it), not silently omitted; crashes are C07's business
+        check.count("module-attrs-generate-answer:ok")
+        out = "\n".join(v for v in ra["ok"].values() if isinstance(v, str))
+        prob = own_names_judge(lang, p["meta"], out)
+        if prob:
+            where = enclosing_modules(p["file"])
+            name = re.search(r"`(\w+)`", prob).group(1)
+            check.violation("%s, modules with attributes: %s; it sits inside %s - no error is reported" % (
+                lang, prob, " > ".join("`%s`" % h for h in where.get(name, [])) or "the file's top level"),
+                case={"lang": lang, "source": p["text"],
+                      "replay": "write `source` to proj/src/lib.rs and run: typeshare %s proj" % " ".join(["--lang", lang] + lang_args(lang) + ["-o", "out." + EXT[lang]])},
+                impl={"output": out}, failing_input=True)
+            return
+    # (c) the same through the binary
+    per_lang = 3 if check.thorough else 1
+    for lang in LANGS:
+        for p in [p for p in progs if p["lang"] == lang and any(m["kind"] != "const" for m in p["meta"])][:per_lang]:
+            with Scratch() as sc:
+                sc.write("proj/src/lib.rs", p["text"])
+                out = sc.path("out." + EXT[lang])
+                r = run_cli(["--lang", lang, "-o", out] + lang_args(lang) + [sc.path("proj")], cwd=sc.dir)
+                text = open(out, encoding="utf-8", errors="replace").read() if os.path.exists(out) else ""
+            check.saw(("module-attrs-cli", lang, p["text"]), nontrivial=True)
+            check.count("module-attrs-cli-" + lang)
+            if r["timed_out"] or r["rc"] != 0:
+                continue        # reported; crashes are C07's business
+            prob = own_names_judge(lang, p["meta"], text)
+            if prob:
+                check.violation("%s through the binary, modules with attributes: exit status 0, %s" % (lang, prob),
+                                case={"lang": lang, "source": p["text"], "replay": "write `source` to proj/src/lib.rs and run: typeshare %s proj"
+                                      % " ".join(["--lang", lang] + lang_args(lang) + ["-o", "out." + EXT[lang]])},
+                                impl={"rc": r["rc"], "stderr": r["err"][-800:], "output": text}, failing_input=True)
+                return
+    names = set().union(*[l2.names_of(p["file"]) for p in progs])
+    mans = [l2.norm(a) for a in model([p["mreq"] for p in progs], names=names)]
+    for p, ma, ra in zip(progs, mans, rans):
+        if ma != ra:
+            check.violation("%s, modules with attributes: generate_types differs from the model: %s" % (p["lang"], corpus.describe(ma, ra)),
+                            case={"lang": p["lang"], "source": p["text"]}, impl=ra, model=ma, failing_input=False,
+                            broken="correspondence L2 generate on inline modules with attributes (theorems TsV.C03.Capstone run_guarantees_*)")
             return
 
 
